@@ -465,8 +465,14 @@ def handle (j : Json) : R Json := do
       let kj := fun (l : List BKind) => Json.arr (l.map fun k => Json.str k.toString).toArray
       let st := fun (s : MState) => Json.mkObj [("backends", kj s.backends), ("rerun", Json.bool s.rerun),
         ("executed", Json.arr (s.executed.map kj).toArray)]
-      let (_, tr) := acts.foldl (fun (acc : MState × List Json) a =>
-        let s' := act acc.1 a; (s', acc.2 ++ [st s'])) (MState.fresh, [])
+      -- a `unit_scale` the real code rejects (AttributeError) ends the trace with an error entry
+      let (_, tr, _) := acts.foldl (fun (acc : MState × List Json × Bool) a =>
+        if acc.2.2 then acc else
+        let rejected := match a with
+          | Action.t Transform.unitScale => unitScaleRejects acc.1
+          | _ => false
+        if rejected then (acc.1, acc.2.1 ++ [Json.mkObj [("err", Json.str "AttributeError")]], true)
+        else let s' := act acc.1 a; (s', acc.2.1 ++ [st s'], false)) (MState.fresh, [], false)
       pure (Json.mkObj [("trace", Json.arr tr.toArray)])
   | "graph" => graphCmd j
   | "modules" =>
